@@ -733,6 +733,8 @@ declarator(struct scope *s, struct qualtype base, char **name, struct scope **fu
 				error(&tok.loc, "array element has incomplete type");
 			if (base.type->kind == TYPEFUNC)
 				error(&tok.loc, "array element has function type");
+			if (base.type->flexible)
+				error(&tok.loc, "array element has flexible array member");
 			t->align = base.type->align;
 			t->size = 0;
 			if (t->u.array.length) {
